@@ -15,6 +15,24 @@
 //!                    components / the year range; a panic of the implementation is a disagreement
 //!                    with the property (impl ⊨ spec), a panic site of the model must be a panic of
 //!                    the implementation and vice versa, values must be equal otherwise.
+//! * `string-index`   impl = model (`Dmn.StringIndex.run`, checked mode): `substring`, `substring before`, `substring after`,
+//!                    `split`, `replace` through FEEL text on strings of 1-, 2-, 3- and 4-byte characters (and the empty
+//!                    string), start positions and lengths at and next to 0, ±len, ±(len+1), the ends of i32 / u32 /
+//!                    isize / usize, non-integers, huge numbers, null and non-numbers; needles / delimiters / patterns
+//!                    that are parts of the string, single characters of every width, absent, empty, longer than the
+//!                    string, self-overlapping. The converted arguments the model is given (`to_isize`, `to_usize`,
+//!                    `< 1`, `trunc`) are computed by the harness from the digits it wrote. A panic of the implementation
+//!                    is a disagreement with the property; values must be equal to the model's otherwise.
+//! * `scope-ops`      impl = model (`Dmn.ScopeCell.execTrace`) at value level: random sequences of the operations of the real
+//!                    `dmntk_feel::Scope` (`push`, `pop`, `peek`, `get_entry`, `search_deep`, `set_entry`, `insert_null`,
+//!                    `flatten_keys`) from `Scope::new()` and `Scope::default()`, contexts with nested contexts, lists of
+//!                    contexts, rebinding of bound names; every answer (value found / none, context popped / peeked as a
+//!                    map, the set of flattened keys) and, through final pops, the whole stack is compared.
+//! * `longest-name`   impl = model (`Dmn.LongestName`): the real `parse_longest_name` in-process on names with additional
+//!                    symbols, inner and outer white space of every kind, keywords, Unicode name characters, digits first,
+//!                    the empty text, symbols only, very long names. Where the model's tokens are one name and the end the
+//!                    answer must be `Ok` with exactly that (normalised) name; where the model's lexer reports an error or
+//!                    its driver loop rejects the tokens the answer must be `Err`; never a panic.
 //! * `process`        VALIDATION, not proof: all parser entry points and `evaluate` (empty
 //!                    scope) in child processes with a wall-clock limit, on grammar-derived
 //!                    inputs, mutations of the string literals of the repository's own tests,
@@ -1077,6 +1095,20 @@ pub fn run(cfg: &Cfg) -> Report {
   let mut model = Model::start(&cfg.driver);
   let scratch = std::path::Path::new(&cfg.report).parent().map(|p| p.to_path_buf()).unwrap_or_else(std::env::temp_dir);
 
+  // development aid: `VHARNESS_C05_ONLY=string-index,scope-ops,longest-name` runs the named in-process families alone
+  if let Ok(only) = std::env::var("VHARNESS_C05_ONLY") {
+    for f in only.split(',') {
+      match f {
+        "string-index" => string_index(&mut rep, &mut model, &mut rng, thorough),
+        "scope-ops" => scope_ops(&mut rep, &mut model, &mut rng, thorough),
+        "longest-name" => longest_name(&mut rep, &mut model, &mut rng, thorough),
+        "temporal-extreme" => temporal_extreme(&mut rep, &mut model, &mut rng, thorough),
+        _ => {}
+      }
+    }
+    return rep;
+  }
+
   // tables as the driver sees them (regenerated by translate/lalr.py in this run)
   let tables = model.ask("(c05 tables)");
   rep.extra.insert("lalr_tables".into(), json!(tables));
@@ -1665,6 +1697,15 @@ pub fn run(cfg: &Cfg) -> Report {
 
   // ------------------------------------------------------------------ temporal-extreme: impl = model
   temporal_extreme(&mut rep, &mut model, &mut rng, thorough);
+
+  // ------------------------------------------------------------------ string-index: impl = model
+  string_index(&mut rep, &mut model, &mut rng, thorough);
+
+  // ------------------------------------------------------------------ scope-ops: impl = model, at value level
+  scope_ops(&mut rep, &mut model, &mut rng, thorough);
+
+  // ------------------------------------------------------------------ longest-name: impl = model
+  longest_name(&mut rep, &mut model, &mut rng, thorough);
 
   // ------------------------------------------------------------------ process-level runner (validation)
   let workers = std::thread::available_parallelism().map(|n| n.get()).unwrap_or(4).min(12);
@@ -2546,4 +2587,721 @@ fn long_history(rep: &mut Report, rng: &mut Rng, thorough: bool) {
     }
   }
   rep.extra.insert("long_history_evaluations".into(), json!(history.len()));
+}
+
+// ------------------------------------------------------------------------------------------
+// family `string-index`: the machine-integer / byte index arithmetic of the string built-ins
+// ------------------------------------------------------------------------------------------
+
+/// A number written by the generator: sign, integer digits, fraction digits ("" = none). Never negative zero.
+#[derive(Clone)]
+struct SNum {
+  neg: bool,
+  mag: u128,
+  frac: &'static str,
+}
+
+impl SNum {
+  fn int(v: i128) -> SNum {
+    SNum { neg: v < 0, mag: v.unsigned_abs(), frac: "" }
+  }
+  fn text(&self) -> String {
+    let mut t = String::new();
+    if self.neg {
+      t.push('-');
+    }
+    t.push_str(&self.mag.to_string());
+    if !self.frac.is_empty() {
+      t.push('.');
+      t.push_str(self.frac);
+    }
+    t
+  }
+  fn integral(&self) -> bool {
+    self.frac.chars().all(|c| c == '0')
+  }
+  /// `FeelNumber::to_isize`: the integral values of `isize`, nothing else.
+  fn as_isize(&self) -> Option<i128> {
+    if !self.integral() {
+      return None;
+    }
+    let v: i128 = if self.neg { -(self.mag as i128) } else { self.mag as i128 };
+    if v >= i64::MIN as i128 && v <= i64::MAX as i128 {
+      Some(v)
+    } else {
+      None
+    }
+  }
+  /// `value < 1`
+  fn below_one(&self) -> bool {
+    self.neg || self.mag == 0
+  }
+  /// `trunc().to_usize()` of a value that is at least 1
+  fn trunc_usize(&self) -> Option<u128> {
+    if self.mag <= u64::MAX as u128 {
+      Some(self.mag)
+    } else {
+      None
+    }
+  }
+}
+
+const SI_ALPHABET: [char; 20] = [
+  'a', 'b', 'c', ' ', ',', '\u{E9}', '\u{DF}', '\u{20AC}', '\u{D55C}', '\u{1F600}', '\u{1F40E}', '\u{A0}', '\u{3000}', '\u{80}', '\u{7FF}', '\u{800}', '\u{FFFD}',
+  '\u{10000}', '\u{10FFFF}', 'a',
+];
+/// characters that stand for themselves in a regular expression (and are not white space)
+const SI_LITERALS: [char; 12] = ['a', 'b', ',', '\u{E9}', '\u{DF}', '\u{20AC}', '\u{D55C}', '\u{1F600}', '\u{1F40E}', '\u{7FF}', '\u{800}', '\u{10000}'];
+
+fn si_string(rng: &mut Rng, max: u64) -> String {
+  let n = rng.below(max + 1);
+  (0..n).map(|_| *rng.pick(&SI_ALPHABET)).collect()
+}
+
+fn si_literal(rng: &mut Rng) -> String {
+  match rng.below(6) {
+    0 => {
+      // a self-overlapping pattern
+      let c = *rng.pick(&SI_LITERALS);
+      std::iter::repeat(c).take(2 + rng.below(2) as usize).collect()
+    }
+    1 | 2 => rng.pick(&SI_LITERALS).to_string(),
+    _ => (0..(1 + rng.below(3))).map(|_| *rng.pick(&SI_LITERALS)).collect(),
+  }
+}
+
+fn si_number(rng: &mut Rng, len: i128) -> SNum {
+  let ends: [i128; 30] = [
+    0,
+    1,
+    -1,
+    2,
+    -2,
+    len,
+    -len,
+    len + 1,
+    -(len + 1),
+    len - 1,
+    -(len - 1),
+    i32::MAX as i128,
+    i32::MIN as i128,
+    u32::MAX as i128,
+    u32::MAX as i128 + 1,
+    i64::MAX as i128,
+    i64::MAX as i128 - 1,
+    i64::MAX as i128 + 1,
+    i64::MIN as i128,
+    i64::MIN as i128 + 1,
+    i64::MIN as i128 - 1,
+    u64::MAX as i128,
+    u64::MAX as i128 - 1,
+    u64::MAX as i128 + 1,
+    -(u64::MAX as i128),
+    1_000_000_000_000_000_000_000_000_000_000,
+    -1_000_000_000_000_000_000_000_000_000_000,
+    i64::MAX as i128 - len,
+    u64::MAX as i128 - len + 1,
+    u64::MAX as i128 - len,
+  ];
+  match rng.below(10) {
+    0..=3 => SNum::int(rng.range(-(len as i64) - 2, len as i64 + 2) as i128),
+    4..=6 => {
+      let v = *rng.pick(&ends);
+      SNum::int(if v == 0 && rng.chance(1, 2) { 0 } else { v })
+    }
+    7 => {
+      // an integral value written with a fraction
+      let v = rng.range(-(len as i64) - 1, len as i64 + 1) as i128;
+      SNum { neg: v < 0, mag: v.unsigned_abs(), frac: *rng.pick(&["0", "00", "000"]) }
+    }
+    _ => {
+      // not an integer
+      let mags: [u128; 9] = [0, 1, 2, len.unsigned_abs(), len.unsigned_abs() + 1, i64::MAX as u128, i64::MAX as u128 + 1, u64::MAX as u128, u64::MAX as u128 + 1];
+      SNum { neg: rng.chance(1, 3), mag: *rng.pick(&mags), frac: *rng.pick(&["5", "99", "01", "000001", "9999999"]) }
+    }
+  }
+}
+
+struct SCase {
+  op: &'static str,
+  request: String,
+  feel: String,
+}
+
+fn si_lit(s: &str) -> String {
+  format!("\"{}\"", s)
+}
+
+fn gen_string_case(rng: &mut Rng) -> SCase {
+  use crate::sexp::Sexp;
+  match rng.below(10) {
+    0..=4 => {
+      let s = si_string(rng, 7);
+      let len = s.chars().count() as i128;
+      let start = si_number(rng, len);
+      let start_atom = start.as_isize().map(|v| v.to_string()).unwrap_or_else(|| "none".to_string());
+      let (len_text, len_atom): (Option<String>, String) = match rng.below(12) {
+        0 => (None, "toEnd".to_string()),
+        1 => (Some("null".to_string()), "toEnd".to_string()),
+        2 => (Some(rng.pick(&["\"x\"", "true", "[1]", "@\"P1D\""]).to_string()), "other".to_string()),
+        _ => {
+          let n = si_number(rng, len);
+          let atom = if n.below_one() { "below1".to_string() } else { n.trunc_usize().map(|v| v.to_string()).unwrap_or_else(|| "none".to_string()) };
+          (Some(n.text()), atom)
+        }
+      };
+      let feel = match &len_text {
+        Some(l) => format!("substring({}, {}, {})", si_lit(&s), start.text(), l),
+        None => format!("substring({}, {})", si_lit(&s), start.text()),
+      };
+      SCase { op: "substring", request: format!("(c05 strindex checked substring {} {} {})", Sexp::str(&s), start_atom, len_atom), feel }
+    }
+    5 | 6 => {
+      let s = si_string(rng, 8);
+      let cs: Vec<char> = s.chars().collect();
+      let needle: String = match rng.below(8) {
+        0 => String::new(),
+        1 => s.clone(),
+        2 => {
+          let mut t = s.clone();
+          t.push(*rng.pick(&SI_ALPHABET));
+          t
+        }
+        3 => rng.pick(&SI_ALPHABET).to_string(),
+        4 => si_string(rng, 2),
+        _ => {
+          if cs.is_empty() {
+            String::new()
+          } else {
+            let a = rng.below(cs.len() as u64) as usize;
+            let b = a + 1 + rng.below((cs.len() - a).min(3) as u64) as usize;
+            cs[a..b.min(cs.len())].iter().collect()
+          }
+        }
+      };
+      let (op, name) = if rng.chance(1, 2) { ("before", "substring before") } else { ("after", "substring after") };
+      SCase { op, request: format!("(c05 strindex checked {} {} {})", op, Sexp::str(&s), Sexp::str(&needle)), feel: format!("{}({}, {})", name, si_lit(&s), si_lit(&needle)) }
+    }
+    _ => {
+      // a string made of pieces around a delimiter that denotes itself
+      let d = if rng.chance(1, 15) { String::new() } else { si_literal(rng) };
+      let mut s = String::new();
+      for i in 0..rng.below(5) {
+        if i > 0 || rng.chance(1, 4) {
+          s.push_str(&d);
+          if rng.chance(1, 5) {
+            s.push_str(&d);
+          }
+        }
+        s.push_str(&si_string(rng, 3));
+      }
+      if rng.chance(1, 4) {
+        s.push_str(&d);
+      }
+      if rng.chance(1, 2) {
+        SCase { op: "split", request: format!("(c05 strindex checked split {} {})", Sexp::str(&s), Sexp::str(&d)), feel: format!("split({}, {})", si_lit(&s), si_lit(&d)) }
+      } else {
+        let r = si_string(rng, 3);
+        SCase {
+          op: "replace",
+          request: format!("(c05 strindex checked replace {} {} {})", Sexp::str(&s), Sexp::str(&d), Sexp::str(&r)),
+          feel: format!("replace({}, {}, {})", si_lit(&s), si_lit(&d), si_lit(&r)),
+        }
+      }
+    }
+  }
+}
+
+fn string_observed(v: &Value) -> String {
+  use crate::sexp::Sexp;
+  match v {
+    Value::Null(_) => "(ok null)".to_string(),
+    Value::String(s) => format!("(ok {})", Sexp::str(s)),
+    Value::List(items) => {
+      let mut t = "(ok (list".to_string();
+      for item in items.as_vec() {
+        match item {
+          Value::String(s) => {
+            t.push(' ');
+            t.push_str(&Sexp::str(s).to_string());
+          }
+          other => t.push_str(&format!(" (other {:?})", other)),
+        }
+      }
+      t.push_str("))");
+      t
+    }
+    other => format!("(other {:?})", other),
+  }
+}
+
+fn string_index(rep: &mut Report, model: &mut Model, rng: &mut Rng, thorough: bool) {
+  let n = if thorough { 80000 } else { 3000 };
+  let mut cases: Vec<SCase> = vec![];
+  // the ends of the machine types and the boundaries of every character width first
+  let four = "a\u{E9}\u{20AC}\u{1F600}";
+  let four_s = crate::sexp::Sexp::str(four).to_string();
+  let fixed: [(&'static str, String, String); 12] = [
+    ("substring", format!("(c05 strindex checked substring {} -9223372036854775808 18446744073709551615)", four_s), format!("substring(\"{}\", -9223372036854775808, 18446744073709551615)", four)),
+    ("substring", format!("(c05 strindex checked substring {} 9223372036854775807 toEnd)", four_s), format!("substring(\"{}\", 9223372036854775807)", four)),
+    ("substring", format!("(c05 strindex checked substring {} 2 18446744073709551615)", four_s), format!("substring(\"{}\", 2, 18446744073709551615)", four)),
+    ("substring", format!("(c05 strindex checked substring {} -4 4)", four_s), format!("substring(\"{}\", -4, 4)", four)),
+    ("substring", format!("(c05 strindex checked substring {} -5 1)", four_s), format!("substring(\"{}\", -5, 1)", four)),
+    ("substring", format!("(c05 strindex checked substring {} 4 1)", four_s), format!("substring(\"{}\", 4, 1.9)", four)),
+    ("substring", format!("(c05 strindex checked substring {} none 1)", four_s), format!("substring(\"{}\", 9223372036854775808, 1)", four)),
+    ("substring", "(c05 strindex checked substring (s) 1 toEnd)".to_string(), "substring(\"\", 1)".to_string()),
+    ("before", format!("(c05 strindex checked before {} (s 128512))", four_s), format!("substring before(\"{}\", \"\u{1F600}\")", four)),
+    ("after", format!("(c05 strindex checked after {} (s 233))", four_s), format!("substring after(\"{}\", \"\u{E9}\")", four)),
+    ("split", format!("(c05 strindex checked split {} (s 8364))", four_s), format!("split(\"{}\", \"\u{20AC}\")", four)),
+    ("replace", format!("(c05 strindex checked replace {} (s 8364) (s 32))", four_s), format!("replace(\"{}\", \"\u{20AC}\", \" \")", four)),
+  ];
+  for (op, request, feel) in fixed {
+    cases.push(SCase { op, request, feel });
+  }
+  for _ in 0..n {
+    cases.push(gen_string_case(rng));
+  }
+  let reqs: Vec<String> = cases.iter().map(|c| c.request.clone()).collect();
+  let answers = model.ask_batch(&reqs);
+  let scope = Scope::default();
+  for (c, want) in cases.iter().zip(answers.iter()) {
+    crate::util::note_case(&c.feel);
+    let got = located(|| dmntk_feel_parser::parse_expression(&scope, &c.feel, false).map(|node| dmntk_feel_evaluator::evaluate(&scope, &node)));
+    let shown = format!("{}   [{}]", c.feel, c.request);
+    let model_panics = want.starts_with("(panic ");
+    rep.case(&format!("strindex|{}", c.request), !want.starts_with("(ok null)"));
+    rep.hit(&format!("string-index:op={}", c.op));
+    rep.hit(&format!("string-index:model={}", if model_panics { "panic" } else if want.starts_with("(ok null)") { "null" } else { "value" }));
+    if want.starts_with("(error") {
+      rep.disagree(Kind::ImplVsModel, "string-index", "string-index: the driver rejects a request", &shown, "-", want);
+      continue;
+    }
+    match got {
+      Err(loc) => {
+        let file = loc.split(':').next().unwrap_or("").to_string();
+        // the property forbids the panic, whatever the model says
+        rep.disagree(Kind::ImplVsSpec, "string-index", &format!("panic {} (string-index {})", file, c.op), &shown, &format!("panicked at {}", loc), "a value or null");
+        if !model_panics {
+          rep.disagree(Kind::ImplVsModel, "string-index", &format!("string-index {}: the implementation panics where the model returns", c.op), &shown, &format!("panicked at {}", loc), want);
+        }
+      }
+      Ok(Err(e)) => {
+        rep.disagree(Kind::ImplVsModel, "string-index", &format!("string-index {}: the generated expression is not accepted", c.op), &shown, &e.to_string(), want);
+      }
+      Ok(Ok(Err(e))) => {
+        rep.disagree(Kind::ImplVsModel, "string-index", &format!("string-index {}: evaluation is an error", c.op), &shown, &e.to_string(), want);
+      }
+      Ok(Ok(Ok(v))) => {
+        let obs = string_observed(&v);
+        if model_panics {
+          rep.disagree(Kind::ImplVsModel, "string-index", &format!("string-index {}: the model has a panic site the implementation does not reach", c.op), &shown, &obs, want);
+        } else if &obs != want {
+          rep.disagree(Kind::ImplVsModel, "string-index", &format!("string-index {}: the value differs from the model", c.op), &shown, &obs, want);
+        }
+      }
+    }
+    if rng.chance(1, 400) {
+      rep.sample(json!({"family": "string-index", "feel": c.feel, "request": c.request, "model": want}));
+    }
+  }
+}
+
+// ------------------------------------------------------------------------------------------
+// family `scope-ops`: the operations of `Scope` against `Dmn.ScopeCell`, at value level
+// ------------------------------------------------------------------------------------------
+
+#[derive(Clone, Debug)]
+enum SV {
+  Num(i64),
+  Str(String),
+  Null,
+  Other,
+  Ctx(Vec<(String, SV)>),
+  List(Vec<SV>),
+}
+
+const SC_NAMES: [&str; 8] = ["a", "b", "c", "d", "Full Name", "x y", "\u{E9}", "n-1"];
+
+fn sv_gen(rng: &mut Rng, depth: u32) -> SV {
+  match rng.below(if depth == 0 { 4 } else { 8 }) {
+    0 | 1 => SV::Num(rng.range(-3, 9)),
+    2 => SV::Str(rng.pick(&["", "x", "a . b"]).to_string()),
+    3 => {
+      if rng.chance(1, 2) {
+        SV::Null
+      } else {
+        SV::Other
+      }
+    }
+    4 | 5 | 6 => sv_ctx(rng, depth - 1),
+    _ => SV::List((0..rng.below(3)).map(|_| sv_gen(rng, depth - 1)).collect()),
+  }
+}
+
+/// mostly one of three names, so that lookups meet bindings
+fn sc_name(rng: &mut Rng) -> String {
+  if rng.chance(3, 4) {
+    rng.pick(&SC_NAMES[..3]).to_string()
+  } else {
+    rng.pick(&SC_NAMES).to_string()
+  }
+}
+
+/// a context with pairwise distinct names
+fn sv_ctx(rng: &mut Rng, depth: u32) -> SV {
+  let mut es: Vec<(String, SV)> = vec![];
+  for _ in 0..rng.below(4) {
+    let k = sc_name(rng);
+    if es.iter().all(|(n, _)| n != &k) {
+      es.push((k, sv_gen(rng, depth)));
+    }
+  }
+  SV::Ctx(es)
+}
+
+fn sv_sexp(v: &SV) -> String {
+  use crate::sexp::Sexp;
+  match v {
+    SV::Num(n) => format!("(num {})", n),
+    SV::Str(s) => format!("(str {})", Sexp::str(s)),
+    SV::Null => "null".to_string(),
+    SV::Other => "other".to_string(),
+    SV::Ctx(es) => format!("(ctx{})", es.iter().map(|(k, v)| format!(" ({} {})", Sexp::str(k), sv_sexp(v))).collect::<String>()),
+    SV::List(vs) => format!("(list{})", vs.iter().map(|v| format!(" {}", sv_sexp(v))).collect::<String>()),
+  }
+}
+
+fn sv_value(v: &SV) -> Value {
+  match v {
+    SV::Num(n) => Value::Number(FeelNumber::from_i128(*n as i128)),
+    SV::Str(s) => Value::String(s.clone()),
+    SV::Null => Value::Null(None),
+    SV::Other => Value::Boolean(true),
+    SV::Ctx(_) => Value::Context(sv_context(v)),
+    SV::List(vs) => Value::List(dmntk_feel::values::Values::new(vs.iter().map(sv_value).collect())),
+  }
+}
+
+fn sv_context(v: &SV) -> dmntk_feel::context::FeelContext {
+  let mut ctx = dmntk_feel::context::FeelContext::default();
+  if let SV::Ctx(es) = v {
+    for (k, v) in es {
+      ctx.set_entry(&Name::from(k.as_str()), sv_value(v));
+    }
+  }
+  ctx
+}
+
+/// canonical text of a real value: contexts as maps (entries in the order of their names)
+fn canon_value(v: &Value) -> String {
+  match v {
+    Value::Number(n) => format!("num:{}", n),
+    Value::String(s) => format!("str:{:?}", s),
+    Value::Null(_) => "null".to_string(),
+    Value::Boolean(true) => "other".to_string(),
+    Value::Context(c) => canon_context(c),
+    Value::List(items) => format!("[{}]", items.as_vec().iter().map(canon_value).collect::<Vec<String>>().join(",")),
+    other => format!("unexpected:{:?}", other),
+  }
+}
+
+fn canon_context(c: &dmntk_feel::context::FeelContext) -> String {
+  let mut es: Vec<(String, String)> = c.get_entries().iter().map(|(k, v)| (k.to_string(), canon_value(v))).collect();
+  es.sort();
+  format!("{{{}}}", es.iter().map(|(k, v)| format!("{:?}={}", k, v)).collect::<Vec<String>>().join(","))
+}
+
+/// canonical text of a value in an answer of the model
+fn canon_model(x: &crate::sexp::Sexp) -> String {
+  if let Some(a) = x.as_atom() {
+    return a.to_string();
+  }
+  let xs = x.as_list().unwrap_or(&[]);
+  match xs.first().and_then(|h| h.as_atom()) {
+    Some("num") => format!("num:{}", xs.get(1).and_then(|n| n.as_atom()).unwrap_or("?")),
+    Some("str") => format!("str:{:?}", xs.get(1).and_then(sexp_text).unwrap_or_default()),
+    Some("ctx") => {
+      let mut es: Vec<(String, String)> = xs[1..]
+        .iter()
+        .map(|e| {
+          let kv = e.as_list().unwrap_or(&[]);
+          (kv.first().and_then(sexp_text).unwrap_or_default(), kv.get(1).map(canon_model).unwrap_or_default())
+        })
+        .collect();
+      es.sort();
+      format!("{{{}}}", es.iter().map(|(k, v)| format!("{:?}={}", k, v)).collect::<Vec<String>>().join(","))
+    }
+    Some("list") => format!("[{}]", xs[1..].iter().map(canon_model).collect::<Vec<String>>().join(",")),
+    _ => format!("unexpected:{}", x),
+  }
+}
+
+/// canonical text of one answer of the model
+fn canon_answer(x: &crate::sexp::Sexp) -> String {
+  if let Some(a) = x.as_atom() {
+    return a.to_string();
+  }
+  let xs = x.as_list().unwrap_or(&[]);
+  match xs.first().and_then(|h| h.as_atom()) {
+    Some("ctx") | Some("val") => match xs.get(1) {
+      Some(v) if v.as_atom() == Some("none") => "none".to_string(),
+      Some(v) => format!("some {}", canon_model(v)),
+      None => "?".to_string(),
+    },
+    Some("keys") => {
+      let mut ks: Vec<String> = xs[1..].iter().map(|k| sexp_text(k).unwrap_or_default()).collect();
+      ks.sort();
+      ks.dedup();
+      format!("keys {:?}", ks)
+    }
+    _ => format!("unexpected:{}", x),
+  }
+}
+
+#[derive(Clone, Debug)]
+enum SOp {
+  Push(SV),
+  Pop,
+  Peek,
+  Get(String),
+  Deep(Vec<String>),
+  Set(String, SV),
+  Null(String),
+  Keys,
+}
+
+fn sop_sexp(op: &SOp) -> String {
+  use crate::sexp::Sexp;
+  match op {
+    SOp::Push(c) => format!("(push {})", sv_sexp(c)),
+    SOp::Pop => "(pop)".to_string(),
+    SOp::Peek => "(peek)".to_string(),
+    SOp::Get(k) => format!("(get {})", Sexp::str(k)),
+    SOp::Deep(ks) => format!("(deep{})", ks.iter().map(|k| format!(" {}", Sexp::str(k))).collect::<String>()),
+    SOp::Set(k, v) => format!("(set {} {})", Sexp::str(k), sv_sexp(v)),
+    SOp::Null(k) => format!("(null {})", Sexp::str(k)),
+    SOp::Keys => "(keys)".to_string(),
+  }
+}
+
+fn sop_name(op: &SOp) -> &'static str {
+  match op {
+    SOp::Push(_) => "push",
+    SOp::Pop => "pop",
+    SOp::Peek => "peek",
+    SOp::Get(_) => "get_entry",
+    SOp::Deep(_) => "search_deep",
+    SOp::Set(_, _) => "set_entry",
+    SOp::Null(_) => "insert_null",
+    SOp::Keys => "flatten_keys",
+  }
+}
+
+/// what the real scope answers, in the canonical text
+fn sop_apply(scope: &Scope, op: &SOp) -> String {
+  match op {
+    SOp::Push(c) => {
+      scope.push(sv_context(c));
+      "unit".to_string()
+    }
+    SOp::Pop => scope.pop().map(|c| format!("some {}", canon_context(&c))).unwrap_or_else(|| "none".to_string()),
+    SOp::Peek => format!("some {}", canon_context(&scope.peek())),
+    SOp::Get(k) => scope.get_entry(&Name::from(k.as_str())).map(|v| format!("some {}", canon_value(&v))).unwrap_or_else(|| "none".to_string()),
+    SOp::Deep(ks) => {
+      let names: Vec<Name> = ks.iter().map(|k| Name::from(k.as_str())).collect();
+      scope.search_deep(&names).map(|v| format!("some {}", canon_value(&v))).unwrap_or_else(|| "none".to_string())
+    }
+    SOp::Set(k, v) => {
+      scope.set_entry(&Name::from(k.as_str()), sv_value(v));
+      "unit".to_string()
+    }
+    SOp::Null(k) => {
+      scope.insert_null(Name::from(k.as_str()));
+      "unit".to_string()
+    }
+    SOp::Keys => {
+      let mut ks: Vec<String> = scope.flatten_keys().into_iter().collect();
+      ks.sort();
+      format!("keys {:?}", ks)
+    }
+  }
+}
+
+fn scope_ops(rep: &mut Report, model: &mut Model, rng: &mut Rng, thorough: bool) {
+  let n = if thorough { 20000 } else { 1200 };
+  let mut runs: Vec<(bool, Vec<SOp>)> = vec![];
+  for _ in 0..n {
+    let from_default = rng.chance(2, 3);
+    let mut depth: i64 = if from_default { 1 } else { 0 };
+    let mut ops: Vec<SOp> = vec![];
+    for _ in 0..(3 + rng.below(20)) {
+      let name = sc_name(rng);
+      let op = match rng.below(17) {
+        0 | 1 => {
+          depth += 1;
+          SOp::Push(sv_ctx(rng, 2))
+        }
+        2 | 3 => {
+          depth = (depth - 1).max(0);
+          SOp::Pop
+        }
+        4 => SOp::Peek,
+        5 | 6 | 7 => SOp::Get(name),
+        8 | 9 | 10 => SOp::Deep((0..rng.below(4)).map(|_| sc_name(rng)).collect()),
+        11 | 12 | 13 => SOp::Set(name, sv_gen(rng, 2)),
+        14 => SOp::Null(name),
+        _ => SOp::Keys,
+      };
+      ops.push(op);
+    }
+    // the whole stack at the end: pop until nothing is left, and once more
+    for _ in 0..(depth + 1) {
+      ops.push(SOp::Pop);
+    }
+    ops.push(SOp::Peek);
+    runs.push((from_default, ops));
+  }
+  let reqs: Vec<String> =
+    runs.iter().map(|(d, ops)| format!("(c05 scopeops {} ({}))", if *d { "default" } else { "new" }, ops.iter().map(sop_sexp).collect::<Vec<String>>().join(" "))).collect();
+  let answers = model.ask_batch(&reqs);
+  for (((from_default, ops), req), want) in runs.iter().zip(reqs.iter()).zip(answers.iter()) {
+    crate::util::note_case(req);
+    let parsed = crate::sexp::Sexp::parse(want);
+    let items: Vec<String> = match parsed.as_ref().and_then(|p| p.as_list()) {
+      Some(xs) if !want.starts_with("(error") => xs.iter().map(canon_answer).collect(),
+      _ => {
+        rep.disagree(Kind::ImplVsModel, "scope-ops", "scope-ops: the driver rejects a request", req, "-", want);
+        continue;
+      }
+    };
+    let got = located(|| {
+      let scope = if *from_default { Scope::default() } else { Scope::new() };
+      ops.iter().map(|op| sop_apply(&scope, op)).collect::<Vec<String>>()
+    });
+    let found = ops.iter().zip(items.iter()).filter(|(op, a)| matches!(op, SOp::Get(_) | SOp::Deep(_)) && a.starts_with("some")).count();
+    rep.case(&format!("scopeops|{}", req), found > 0);
+    rep.hit(&format!("scope-ops:lookups-found={}", found.min(5)));
+    match got {
+      Err(loc) => {
+        let file = loc.split(':').next().unwrap_or("").to_string();
+        rep.disagree(Kind::ImplVsSpec, "scope-ops", &format!("panic {} (scope-ops)", file), req, &format!("panicked at {}", loc), "every operation returns");
+      }
+      Ok(real) => {
+        if items.len() != real.len() {
+          rep.disagree(Kind::ImplVsModel, "scope-ops", "scope-ops: the model stops before the end of the sequence", req, &format!("{} answers", real.len()), want);
+          continue;
+        }
+        for (i, ((op, m), r)) in ops.iter().zip(items.iter()).zip(real.iter()).enumerate() {
+          rep.hit(&format!("scope-ops:op={}", sop_name(op)));
+          if m != r {
+            rep.disagree(
+              Kind::ImplVsModel,
+              "scope-ops",
+              &format!("scope-ops {}: the answer differs from the model", sop_name(op)),
+              &format!("operation {} ({}) of {}", i, sop_sexp(op), req),
+              r,
+              m,
+            );
+            break;
+          }
+        }
+      }
+    }
+    if rng.chance(1, 600) {
+      rep.sample(json!({"family": "scope-ops", "request": req, "model": want}));
+    }
+  }
+}
+
+// ------------------------------------------------------------------------------------------
+// family `longest-name`: `parse_longest_name` against the lexer + driver loop models
+// ------------------------------------------------------------------------------------------
+
+fn gen_name_text(rng: &mut Rng) -> String {
+  let words = [
+    "a", "b", "x1", "Full", "Name", "item", "in", "for", "if", "then", "else", "true", "false", "null", "and", "or", "not", "date", "time", "date and time", "duration",
+    "between", "instance", "of", "function", "some", "every", "satisfies", "return", "\u{E9}t\u{E9}", "\u{3B1}\u{3B2}", "\u{4E2D}\u{6587}", "_u", "n\u{30A}", "\u{1F40E}", "?x",
+    "1", "12ab", "9",
+  ];
+  let seps = [" ", "  ", "\t", "\n", "\u{A0}", "+", "-", "*", "/", ".", "'", " + ", " - ", " . ", "..", "", "_", "(", ")", "\"", ",", ":", "\u{2028}", "\u{FEFF}"];
+  match rng.below(12) {
+    0 => String::new(),
+    1 => (0..(1 + rng.below(3))).map(|_| *rng.pick(&["+", "-", "*", "/", ".", "'", " ", "(", ")"])).collect(),
+    2 => {
+      // long, now and then very long (the lexer's model walks the name part by part: kept to a few per run)
+      let w = *rng.pick(&words);
+      let sep = *rng.pick(&[" ", "+", "-", ".", ""]);
+      let mut s = String::new();
+      let count = if rng.chance(1, 40) { 150 + rng.below(150) } else { 8 + rng.below(24) };
+      for _ in 0..count {
+        s.push_str(w);
+        s.push_str(sep);
+      }
+      s
+    }
+    3 => random_unicode(rng),
+    _ => {
+      let mut s = String::new();
+      if rng.chance(1, 4) {
+        s.push_str(*rng.pick(&seps));
+      }
+      for i in 0..(1 + rng.below(5)) {
+        if i > 0 {
+          s.push_str(*rng.pick(&seps));
+        }
+        s.push_str(*rng.pick(&words));
+      }
+      if rng.chance(1, 4) {
+        s.push_str(*rng.pick(&seps));
+      }
+      s
+    }
+  }
+}
+
+fn longest_name(rep: &mut Report, model: &mut Model, rng: &mut Rng, thorough: bool) {
+  let n = if thorough { 40000 } else { 2500 };
+  let mut texts: Vec<String> = vec!["a".into(), " Full   Name ".into(), "a+b".into(), "a - b".into(), "in".into(), "date and time".into(), "1a".into(), "(a)".into(), "a.b".into(), "a . b".into()];
+  for _ in 0..n {
+    texts.push(gen_name_text(rng));
+  }
+  let reqs: Vec<String> = texts.iter().map(|t| format!("(c05 longestname {})", crate::sexp::Sexp::str(t))).collect();
+  let answers = model.ask_batch(&reqs);
+  for (text, want) in texts.iter().zip(answers.iter()) {
+    crate::util::note_case(text);
+    let got = located(|| dmntk_feel_parser::parse_longest_name(text).map(|name| name.to_string()).map_err(|e| e.to_string()));
+    let shown: String = format!("parse_longest_name({:?})", text.chars().take(300).collect::<String>());
+    let parsed = crate::sexp::Sexp::parse(want);
+    let items = parsed.as_ref().and_then(|p| p.as_list()).map(|l| l.to_vec()).unwrap_or_default();
+    let tag = items.first().and_then(|h| h.as_atom()).unwrap_or("").to_string();
+    rep.case(&format!("longest-name|{}", text), tag == "name");
+    let class = if tag == "name" { "name".to_string() } else { want.trim_start_matches("(other ").trim_end_matches(')').to_string() };
+    rep.hit(&format!("longest-name:model={}", class));
+    match got {
+      Err(loc) => {
+        let file = loc.split(':').next().unwrap_or("").to_string();
+        rep.disagree(Kind::ImplVsSpec, "longest-name", &format!("panic {} (longest-name)", file), &shown, &format!("panicked at {}", loc), "Ok or Err");
+      }
+      Ok(r) => match tag.as_str() {
+        "name" => {
+          let expected = items.get(1).and_then(sexp_text).unwrap_or_default();
+          match r {
+            Ok(name) if name == expected => {}
+            Ok(name) => rep.disagree(Kind::ImplVsModel, "longest-name", "longest-name: the name differs from the model", &shown, &format!("Ok({:?})", name), &format!("Ok({:?})", expected)),
+            Err(e) => rep.disagree(Kind::ImplVsModel, "longest-name", "longest-name: an error where the model has a name", &shown, &format!("Err({})", e), &format!("Ok({:?})", expected)),
+          }
+        }
+        "other" => {
+          // the tokens are not a lone name; where the model's lexer or loop rejects them outright, so must the code
+          if (class == "lexerError" || class == "syntaxError") && r.is_ok() {
+            rep.disagree(Kind::ImplVsModel, "longest-name", "longest-name: a name where the model rejects the tokens", &shown, &format!("{:?}", r), want);
+          }
+        }
+        _ => rep.disagree(Kind::ImplVsModel, "longest-name", "longest-name: the driver rejects a request", &shown, "-", want),
+      },
+    }
+    if rng.chance(1, 500) {
+      rep.sample(json!({"family": "longest-name", "text": text.chars().take(200).collect::<String>(), "model": want}));
+    }
+  }
 }
